@@ -4,6 +4,7 @@
 -/
 import SymfcModel.Model.Tables
 import SymfcModel.Gen.PermTables
+import SymfcModel.Lemmas.Coverage
 namespace Symfc.C04
 open Symfc
 
@@ -39,5 +40,38 @@ theorem projector_tables_agree :
     Gen.projGroupsO3 = Gen.stagesO3.map (·.nPermsGroup) ∧
     Gen.projTablesO2 = (Gen.stagesO2.drop 1).map (·.perms) := by
   decide
+
+/-- C04.b (orders 2 and 3, no cutoff): EVERY class-space element is written by the permutation stage — nothing is
+    eliminated as a "zero element", for every well-formed supercell and every batch split. With C01 (components = whole
+    S_n×T orbits) the columns of `c_pt` are exactly the normalised indicators of ALL orbits: `range c_pt` is the whole
+    space of index-permutation-symmetric, translation-invariant tensors. -/
+theorem every_element_is_covered_O2_O3 (c : Cell) (hwf : c.wf = true) (n : Nat) (hn : n = 2 ∨ n = 3)
+    (nBatch : String → Nat) (ptr' : Array Int)
+    (h : permDecompr Gen.cutoffOps c n (repFor n) (stagesFor n) none nBatch = some ptr') :
+    ∀ e, e < c.N ^ n * 3 ^ n / c.nlp → covered ptr' e :=
+  Cov.V1_covered c hwf hn nBatch ptr' h
+
+/-- C04.b, order 4 — what IS covered: an element is written iff its index pattern is not (p,p,q,q) (and, with a
+    cutoff, its atoms are pairwise near). So relative to the listed patterns order 4 is complete … -/
+theorem order4_covered_iff_not_ppqq (c : Cell) (hwf : c.wf = true) (cut : Option CutoffIn)
+    (hcut : ∀ x, cut = some x → Cov.CutOK c x) (nBatch : String → Nat) (ptr' : Array Int)
+    (h : permDecompr Gen.cutoffOps c 4 Gen.repKindO4 Gen.stagesO4 cut nBatch = some ptr')
+    (t : List Nat) (hlen : t.length = 4) (hlt : ∀ e ∈ t, e < 3 * c.N) :
+    covered ptr' (elemIdx c.N (c.atomicDecompr 4) t) ↔ Cov.ppqq t = false ∧ Cov.admissible cut t :=
+  Cov.V3_covered c hwf cut hcut nBatch ptr' h t hlen hlt
+
+/-- … and the NEGATION of C04 at order 4 on the model (finding F1), for every supercell: an element whose four
+    (atom, Cartesian) index pairs are two distinct pairs, each twice, is never written, hence eliminated and forced to
+    zero in every basis vector. -/
+theorem order4_ppqq_elements_are_forced_to_zero (c : Cell) (hwf : c.wf = true) (cut : Option CutoffIn)
+    (hcutN : ∀ x, cut = some x → x.N = c.N) (nBatch : String → Nat) (ptr' : Array Int)
+    (h : permDecompr Gen.cutoffOps c 4 Gen.repKindO4 Gen.stagesO4 cut nBatch = some ptr')
+    (t : List Nat) (hlen : t.length = 4) (hlt : ∀ e ∈ t, e < 3 * c.N) (hp : Cov.ppqq t = true) :
+    ¬ covered ptr' (elemIdx c.N (c.atomicDecompr 4) t) :=
+  Cov.V3_ppqq_never_covered c hwf cut hcutN nBatch ptr' h t hlen hlt hp
+
+theorem ppqq_means_two_pairs_each_twice (t : List Nat) :
+    Cov.ppqq t = true ↔ t.length = 4 ∧ ∃ a b, a ≠ b ∧ t.count a = 2 ∧ t.count b = 2 :=
+  Cov.ppqq_iff_counts t
 
 end Symfc.C04
